@@ -92,6 +92,8 @@ def run(ctx, repo):
     ctx.rule('I2', 'stores on a shared instance outside __init__ are independent of the call arguments (idempotent lazy cache)')
     ctx.rule('I6', 'no reachable function changes a row of a shared module-level table in place (through an alias or directly), restored or not')
     ctx.rule('I7', 'no reachable function assigns an attribute of an imported module (process-wide setting) at call time')
+    ctx.rule('I8', 'no change of the per-thread decimal context in the modules of the reachable functions')
+    ctx.rule('I9', 'no module-level container is changed in place by reachable code while reachable code iterates it')
     ctx.rule('I3', 'a shared container is touched only by single atomic operations; no iterator/view is held across a mutation')
     entries = []
     for n in ENTRIES_INIT:
@@ -163,6 +165,55 @@ def run(ctx, repo):
                                     '%s assigns `%s`, an attribute of an imported module, while serving a call: the setting is process-wide, so a '
                                     'save / install / restore around one call is undone or overwritten by a concurrent call (not re-entrant across '
                                     'threads)' % (q_, ast.unparse(t)), 'two forced pre-emptions: A installs, B saves and installs, A restores, B runs')
+    # ---- I8 per-thread arithmetic context: decimal.getcontext() / setcontext() / localcontext() settings made at import or in one call
+    # apply to the thread that made them only; every other thread computes with the default context
+    reach_rels = {k[0] for k, _c, _k in seen}
+    for rel_ in sorted(reach_rels):
+        m_ = G.mods[rel_]
+        for n in ast.walk(m_.tree):
+            if isinstance(n, ast.Call) and isinstance(n.func, (ast.Attribute, ast.Name)) and (
+                    n.func.attr if isinstance(n.func, ast.Attribute) else n.func.id) in ('getcontext', 'setcontext'):
+                par = getattr(n, '_parent', None)
+                writes = isinstance(par, ast.Attribute) and isinstance(getattr(par, '_parent', None), (ast.Assign, ast.AugAssign)) \
+                    and any(t is par for t in (par._parent.targets if isinstance(par._parent, ast.Assign) else [par._parent.target]))
+                if writes or (n.func.attr if isinstance(n.func, ast.Attribute) else n.func.id) == 'setcontext':
+                    n_sites += 1
+                    ctx.finding('I8', '%s::decimal context changed' % rel_, rel_, n.lineno,
+                                '`%s` changes the decimal context, which is per thread: the setting holds for the thread that executed this line '
+                                '(the importing thread), every other thread computes with the default context and gets other digits'
+                                % unparse(par._parent if writes else n)[:70], 'the same call from the main thread and from a worker thread')
+    # ---- I9 a module-level container that reachable code iterates must not be changed in place by reachable code (another thread may be
+    # inside the iteration: RuntimeError, or a silently shorter result)
+    iter_sites, mut_sites = {}, {}
+    for (rel_, q_), _rc, _rk in sorted(seen, key=lambda x: (x[0], str(x[1]), str(x[2]))):
+        fn_ = G.func_node((rel_, q_))
+        mm_ = set(module_mutables(G.mods[rel_]))
+        for n in ast.walk(fn_):
+            if isinstance(n, (ast.For, ast.comprehension)) and isinstance(n.iter, ast.Name) and n.iter.id in mm_:
+                iter_sites.setdefault((rel_, n.iter.id), []).append((q_, getattr(n, 'lineno', getattr(n.iter, 'lineno', 0))))
+            tgt = None
+            if isinstance(n, ast.Delete):
+                for t in n.targets:
+                    b = t.value if isinstance(t, ast.Subscript) else None
+                    if isinstance(b, ast.Name) and b.id in mm_:
+                        tgt = (b.id, unparse(n))
+            if isinstance(n, ast.Assign):
+                for t in n.targets:
+                    if isinstance(t, ast.Subscript) and isinstance(t.slice, ast.Slice) and isinstance(t.value, ast.Name) and t.value.id in mm_:
+                        tgt = (t.value.id, unparse(n))
+            if isinstance(n, ast.Call) and isinstance(n.func, ast.Attribute) and isinstance(n.func.value, ast.Name) and n.func.value.id in mm_ \
+                    and n.func.attr in ('clear', 'pop', 'remove', 'insert', 'sort', 'reverse', 'extend', 'append'):
+                tgt = (n.func.value.id, unparse(n))
+            if tgt:
+                mut_sites.setdefault((rel_, tgt[0]), []).append((q_, n.lineno, tgt[1]))
+    for key_, muts_ in sorted(mut_sites.items()):
+        if key_ in iter_sites:
+            q_, ln_, what_ = muts_[0]
+            n_sites += 1
+            ctx.finding('I9', '%s::%s::%s changed in place while iterated elsewhere' % (key_[0], q_, key_[1]), key_[0], ln_,
+                        '%s runs `%s` on the module-level container %s, which %s iterates (line %d): a second thread that is inside that loop sees '
+                        'the container shrink under it and builds a partial result' % (q_, what_[:50], key_[1], iter_sites[key_][0][0], iter_sites[key_][0][1]),
+                        'two first calls, one pre-empted inside the loop')
     for node in sorted(seen, key=lambda x: (x[0], str(x[1]), str(x[2]))):
         key, rcls, rkind = node
         rel, q = key
